@@ -112,13 +112,13 @@ func isOneOf(r rune, rr ...rune) bool {
 }
 
 // Package writes a new archlinux package to the given writer using the given info.
-func (ArchLinux) Package(info *nfpm.Info, w io.Writer) error {
+func (ArchLinux) Package(info *nfpm.Info, w io.Writer) (err error) {
 	if info.Platform != "linux" {
 		return fmt.Errorf("invalid platform: %s", info.Platform)
 	}
 	info = ensureValidArch(info)
 
-	err := nfpm.PrepareForPackager(info, packagerName)
+	err = nfpm.PrepareForPackager(info, packagerName)
 	if err != nil {
 		return err
 	}
@@ -131,10 +131,19 @@ func (ArchLinux) Package(info *nfpm.Info, w io.Writer) error {
 	if err != nil {
 		return err
 	}
-	defer zw.Close()
+	// closing flushes the archive to w: a failure there is a failure to package
+	defer func() {
+		if cerr := zw.Close(); err == nil && cerr != nil {
+			err = fmt.Errorf("closing zstd stream: %w", cerr)
+		}
+	}()
 
 	tw := tar.NewWriter(zw)
-	defer tw.Close()
+	defer func() {
+		if cerr := tw.Close(); err == nil && cerr != nil {
+			err = fmt.Errorf("closing tar: %w", cerr)
+		}
+	}()
 
 	entries, totalSize, err := createFilesInTar(info, tw)
 	if err != nil {
